@@ -377,7 +377,9 @@ def judge_qpu(case: dict, c: V) -> None:
     edges = [tuple(e) for e in case['edges']]
     remote = [tuple(e) for e in case['remote']]
     w0, wr, ov = case['w']
-    over = {tuple(ov[0]): ov[1]} if ov else {}
+    if ov and not isinstance(ov[0][0], (list, tuple)):
+        ov = [ov]                       # older replay files: one [edge, weight]
+    over = {tuple(e): x for e, x in ov} if ov else {}
     E = {R.norm(e) for e in edges}
     tag = f'n={n} edges={edges} remote={remote} weights={case["w"]}'
     r = call(CouplingGraph, edges, n, remote, w0, wr, over)
@@ -400,8 +402,21 @@ def judge_qpu(case: dict, c: V) -> None:
         for j in range(n):
             if abs(nxd[i].get(j, R.INF) - want[i][j]) > 1e-9 and not (nxd[i].get(j, R.INF) == want[i][j]):
                 raise RuntimeError('oracles disagree on weighted distances')
+    # the same weighted graph written with every edge as (low, high) is equal
+    asc = call(
+        CouplingGraph, sorted(E), n, [R.norm(e) for e in remote], w0, wr,
+        {R.norm(e): x for e, x in over.items()},
+    )
+    written = 'ascending' if all(e[0] < e[1] for e in edges) else 'some-edges-descending'
+    if asc[0] == 'ok':
+        c.n('weighted_eq')
+        eq = call(lambda: g == asc[1])
+        if eq[0] != 'ok' or not eq[1]:
+            c.bad('weighted-graph-not-equal-to-the-same-graph-written-ascending',
+                  f'{tag}: == gives {eq[1:]}')
     r = call(g.all_pairs_shortest_path)
     c.n('all_pairs_weighted')
+    c.n('all_pairs_weighted_' + written)
     if r[0] != 'ok':
         c.bad(f'all_pairs_shortest_path-weighted-raises-{r[1]}', f'{tag}: {r[2]}')
     else:
@@ -409,7 +424,8 @@ def judge_qpu(case: dict, c: V) -> None:
         for i in range(n):
             for j in range(n):
                 if i != j and not (D[i][j] == want[i][j] or abs(D[i][j] - want[i][j]) <= 1e-9):
-                    c.bad('all_pairs_shortest_path-weighted-offdiagonal-wrong',
+                    c.bad('all_pairs_shortest_path-weighted-offdiagonal-wrong'
+                          + ('-edges-written-descending' if written != 'ascending' else ''),
                           f'{tag}: D[{i}][{j}]={D[i][j]} want {want[i][j]}')
     # single-source paths on a weighted graph: only validity is judged (the
     # method counts hops; the docstring does not say which length it means)
